@@ -4,6 +4,8 @@ mod orchestrator;
 mod bencode;
 mod writer;
 mod solver;
+#[cfg(torrent_bootstrap_verif)]
+pub mod verif;
 
 pub use orchestrator::OrchestratorOptions;
 pub use orchestrator::start;
